@@ -301,7 +301,7 @@ def run(ck):
                 rows = []
                 for w in csvw:
                     for nme, a, k in w.attrs.get("__calls__", []):
-                        if nme == "writerow" and a and isinstance(a[0], VDict) and a[0].obj.items is not None:
+                        if nme == "writerow" and a and isinstance(a[0], VDict) and a[0].obj.items is not None and not a[0].obj.extra_unknown:
                             rows.append(list(a[0].obj.items.keys()))
                 if fl is None or not rows:
                     ck.undecided("C17.R3", cls + ":csv", m.site(), "CSV header / row not found (fields=%s rows=%d)" % (fl, len(rows)))
